@@ -99,6 +99,30 @@ pub fn set_status(img: &mut [u8], status: u8) {
     }
 }
 
+/// FAT16/FAT32 keep a second copy of the volume status in FAT entry 1 (clean-shutdown bit and hard-error bit,
+/// both set on a healthy volume): clear the chosen bits in every FAT copy, leave the boot-sector byte alone
+pub fn set_fat1_flags(img: &mut [u8], dirty: bool, io_error: bool) {
+    let g = geo_of(img);
+    let (clean_bit, err_bit, nbytes) = match g.width {
+        16 => (0x8000u32, 0x4000u32, 2usize),
+        32 => (0x0800_0000, 0x0400_0000, 4),
+        _ => return,
+    };
+    for c in 0..g.nfats {
+        let off = g.fat_off(c) as usize + nbytes;
+        let mut b = [0u8; 4];
+        b[..nbytes].copy_from_slice(&img[off..off + nbytes]);
+        let mut v = u32::from_le_bytes(b);
+        if dirty {
+            v &= !clean_bit;
+        }
+        if io_error {
+            v &= !err_bit;
+        }
+        img[off..off + nbytes].copy_from_slice(&v.to_le_bytes()[..nbytes]);
+    }
+}
+
 /// find a total sector count for which the library formats exactly `clusters` clusters
 pub fn find_total(bps: u16, clusters: u64, mk: &dyn Fn() -> FormatVolumeOptions, lo: u32, hi: u32) -> Option<u32> {
     for total in lo..hi {
